@@ -1,4 +1,4 @@
-//go:build verif
+//go:build verif && c18cons
 
 package consensus
 
@@ -6,6 +6,9 @@ package consensus
 // (store/zz_verif_c18_lib.go, injected into package store by the same overlay) with every
 // prune executed by the production code path consensus.State.pruneBlocks(retainHeight),
 // which prunes the block store and then the state store to the application's retain height.
+//
+// The extra build tag c18cons keeps this file out of builds that do not also inject the
+// library into package store (lib/props/c18.py builds it with -tags "verif c18cons").
 
 import (
 	"os"
